@@ -198,6 +198,37 @@ def run_mask(eng, p):
     return "ok"
 
 
+def run_mask_int(eng, p):
+    """mask given as an integer array (any non-zero value is foreground,
+    e.g. 0/1 masks of other software): stored as uint8 unchanged, read back
+    as `value != 0` by the real reader (item, whole-array and iteration)"""
+    n = p["n"]
+    f = symh5.File("a.rtdc", "w")
+    hw = make_writer(f)
+    px = [eng.int("px%d" % i) for i in range(n)]
+    for x in px:
+        eng.assume((x >= 0) & (x <= 255))
+    with quiet():
+        hw.store_feature("mask", SArr(px, np.uint8, (1, 1)))
+    ds = f["events"]["mask"]
+    eng.prove(z3.BoolVal(ds.dtype == np.uint8), "mask stored as uint8")
+    for i, x in enumerate(px):
+        eng.prove(toint(ds.data.elems[i]) == x.e,
+                  "integer mask pixel stored unchanged")
+    rd = shadow(EV, np=SymNP())["H5Events"](f)
+    got = rd["mask"]
+
+    def same(r, x):
+        r = r.elems[0] if isinstance(r, SArr) else r
+        return tobool(r if isinstance(r, SBool) else
+                      SBool(toint(r) != 0)) == (x.e != 0)
+    for i, x in enumerate(px):
+        eng.prove(same(got[i], x), "integer mask read back as value != 0")
+    for i, r in enumerate(got):
+        eng.prove(same(r, px[i]), "integer mask iterated as value != 0")
+    return "ok"
+
+
 # ------------------------------------------------------------- (C) contour
 def run_contour_replace(eng, p):
     """mode='replace': a second store_feature('contour') in the same writer
@@ -472,6 +503,7 @@ def run_logs(eng, p):
 def run_case(name, params):
     eng = Engine(timeout_ms=20000)
     fn = {"nd": run_nd_step, "history": run_history, "mask": run_mask,
+          "mask-int": run_mask_int,
           "contour": run_contour, "logs": run_logs,
           "index": run_index}[params["kind"]]
     eng.explore(lambda e: fn(e, params))
@@ -494,6 +526,7 @@ def cases(tier, seed):
             out.append(("history %s N=%d calls=%d" % (feat, NH, calls),
                         dict(kind="history", N=NH, calls=calls, feat=feat)))
     out.append(("mask n=3", dict(kind="mask", n=3)))
+    out.append(("mask-int n=3", dict(kind="mask-int", n=3)))
     for m in range(0, 4):
         for n in range(1, 4):
             for reopened in ([True, False] if m else [True]):
@@ -675,6 +708,39 @@ def replay(case, params, v):
                              "events is %r, expected %r" % (mode, m, got,
                                                             exp))
             key = "store_feature|index-enumeration|%s" % mode
+        elif p["kind"] == "mask-int":
+            import dclab
+            import dclab.rtdc_dataset.writer as Wm
+            Wm.version = "0.62.7"   # untagged development version
+            px = [int(vals.get("px%d" % i, 0)) for i in range(p["n"])]
+            msk = np.zeros((p["n"], 4, 5), dtype=np.uint8)
+            for i, x in enumerate(px):
+                msk[i, 1:3, 1:4] = x
+            with RTDCWriter(path, mode="reset") as hw:
+                hw.store_metadata({"experiment": {"sample": "s",
+                                                  "run index": 1},
+                                   "imaging": {"pixel size": 0.34},
+                                   "setup": {"channel width": 20.0,
+                                             "chip region": "channel",
+                                             "flow rate": 0.04}})
+                hw.store_feature("deform", np.linspace(.1, .2, p["n"]))
+                hw.store_feature("mask", msk)
+            with h5py.File(path, "r") as h:
+                if not np.array_equal(h["events/mask"][:], msk):
+                    fails.append("integer mask stored differently")
+            with dclab.new_dataset(path) as ds:
+                for i in range(p["n"]):
+                    if not np.array_equal(ds["mask"][i], msk[i] != 0):
+                        fails.append(
+                            "mask written as integer array with foreground "
+                            "value %d is read back with %d foreground "
+                            "pixels instead of %d (event %d)" % (
+                                px[i], int(np.sum(ds["mask"][i])),
+                                int(np.sum(msk[i] != 0)), i))
+                        break
+                if not np.array_equal(ds["mask"][:], msk != 0):
+                    fails.append("sliced integer mask differs")
+            key = "H5MaskEvent|integer-mask|foreground-lost"
         elif p["kind"] == "contour" and p.get("replace"):
             m, n = p["m"], p["n"]
             conts = [np.arange(10).reshape(5, 2) + 100 * i
